@@ -23,6 +23,7 @@ const (
 	OutPanicStr
 	OutPanicErr
 	OutPanicNil // nil-pointer dereference (runtime error)
+	OutGoexit   // the worker function leaves through runtime.Goexit (e.g. t.FailNow inside it): it never returns
 )
 
 // Config of one episode.
